@@ -4,7 +4,7 @@ from itertools import combinations
 from hypothesis import strategies as st
 
 from vlib import oracles
-from vlib.runner import Violation, call
+from vlib.runner import Violation, call, clone_point
 
 PID = "C17"
 RULE = ("Hypothesis-generated cover-labelled networks (5..10 vertices quick / ..14 thorough, 2..9 motifs: cliques 2..4, "
@@ -91,7 +91,9 @@ def enumerated(tier, seed):
     ag = [[0, 1, 2], [3, 4, 5], [6, 7, 8], [0, 3, 6], [1, 4, 7], [2, 5, 8], [0, 4, 8], [1, 5, 6]]
     nets = [
         (11, [["clique3", t] for t in fano] + [["clique2", [0, 7]], ["clique2", [7, 8]], ["clique2", [8, 9]]]),
-        (9, [["clique3", t] for t in ag] + [["cycle4", [2, 5, 8, 3]]]),
+        # (the 4-cycle passes through two new vertices and through 2 and 7, which lie on no common line among the eight
+        # used, so that it shares at most one vertex with every triangle)
+        (11, [["clique3", t] for t in ag] + [["cycle4", [2, 9, 7, 10]]]),
         # a 4-cycle whose vertices sit in different surroundings (non-uniform messages round the cycle)
         (18, [["clique3", t] for t in fano] + [["clique3", [7 + a for a in t]] for t in fano] +
              [["cycle4", [0, 14, 7, 15]], ["clique3", [14, 16, 17]]]),
@@ -242,12 +244,17 @@ def hyper_cycle(case):
 def check(case):
     from gcmpy.message_passing.message_passing import MessagePassing
     G, mlist = build(case)
+    for (na, ea), (nb, eb) in combinations(mlist, 2):
+        if len(set(na) & set(nb)) > 1 or {frozenset(e) for e in ea} & {frozenset(e) for e in eb}:
+            raise RuntimeError(f"harness: motifs {na} and {nb} share more than one vertex: not a case of this property")
     its = case["iterations"]
     mp = call("construct", MessagePassing, G, "motif cover", its)
     answers = []
     classes = set()
     mid_s = False
     for qi, phi in enumerate(case["phis"]):
+        if qi == 1:
+            mp = clone_point(mp, case)  # after the first query the caller goes on with a copy of the object
         s = call("theoretical", mp.theoretical, phi)
         try:
             s = float(s)
@@ -276,6 +283,23 @@ def check(case):
     for (p1, s1), (p2, s2) in combinations(sorted(answers), 2):
         if p1 < p2 and s1 > s2 + 1e-9:
             raise Violation("monotone", f"S({p1})={s1!r} > S({p2})={s2!r} at iterations={its}")
+    # the same graph object is then given another cover (every edge a motif of its own, ids again from 0) and asked
+    # again: the answer is that of a freshly built graph with that cover, whatever was computed on the object before
+    if G.number_of_edges() and case["phis"]:
+        import networkx as nx
+        H = nx.Graph()
+        H.add_nodes_from(G.nodes())
+        for i, (u, v) in enumerate(list(G.edges())):
+            lab = f"2-{[u, v]}-{[(u, v)]}-{i}"
+            G.edges[u, v]["CoverLabel"] = lab
+            H.add_edge(u, v, CoverLabel=lab)
+        phi2 = case["phis"][0]
+        a = call("theoretical-after-relabelling", MessagePassing(G, "motif cover", its).theoretical, phi2)
+        b = call("theoretical-fresh", MessagePassing(H, "motif cover", its).theoretical, phi2)
+        if abs(float(a) - float(b)) > 1e-12:
+            raise Violation("history-dependence", f"graph object re-labelled with an edge cover, phi={phi2}: {a!r}; a freshly built graph with "
+                                                  f"the same cover: {b!r}")
+        classes.add("graph_object_relabelled")
     kinds = {m[0] for m in case["motifs"]}
     if any(not any(v in m[1] for m in case["motifs"]) for v in range(case["n"])):
         classes.add("vertex_in_no_motif")
